@@ -5,6 +5,7 @@ import sys
 import time
 
 VERIF = os.path.dirname(os.path.dirname(os.path.abspath(__file__)))
+OUT = os.environ.get('VERIF_OUT') or os.path.join(VERIF, 'evidence')
 KNOWN_FILE = os.path.join(VERIF, 'known_findings.json')
 
 
@@ -94,7 +95,7 @@ class Ctx(object):
         for f, e in matched:
             print('KNOWN-FINDING: property=%s %s %s %s :: %s [%s]' % (
                 f.prop, f.rule, f.func, f.construct, f.message, e.get('id', '?')))
-        replay_dir = os.path.join(VERIF, 'evidence', 'replay')
+        replay_dir = os.path.join(OUT, 'replay')
         replays = []
         if unknown:
             os.makedirs(replay_dir, exist_ok=True)
@@ -149,7 +150,7 @@ class Ctx(object):
             'wall_s': round(time.time() - self.t0, 3),
             'violations': nviol,
         }
-        d = os.path.join(VERIF, 'evidence')
+        d = OUT
         os.makedirs(d, exist_ok=True)
         with open(os.path.join(d, '%s.json' % self.prop), 'w') as fh:
             json.dump(ev, fh, indent=1, default=str)
